@@ -41,6 +41,9 @@ def shards(tier, quick_len=4, thorough_len=6, quick_random=350, thorough_random=
                 for e in extra:
                     e["require"] = "\x92"
             out += extra
+    # product cells (vlib/cells.py): resolving opcode x call opcode x callee shape (incl. a memo
+    # slot written twice) x fate of the value x framing, over two harmless globals
+    out += [{"kind": "cells", "tier": tier, "part": i, "nparts": 8} for i in range(8)]
     per = quick_random if tier == "quick" else thorough_random
     out += [{"kind": "random", "n": per, "idx": i} for i in range(16)]
     pern = quick_natural if tier == "quick" else thorough_natural
@@ -81,6 +84,30 @@ def run_shard(spec, seed, judge, nt_prog, nt_bytes, focus=None, full=None):
             f"with <= {spec['L']} opcodes before STOP (count in enumerated_programs)"
             + (" that contain NEWOBJ_EX" if req else "")
         )
+    elif spec["kind"] == "cells":
+        from vlib import cells
+
+        framings = ("bare", "proto4_frame") if spec["tier"] == "quick" else cells.FRAMING
+        n = 0
+        for i, cell in enumerate(cells.all_cells([("verif_objs", "make"), ("collections", "OrderedDict")],
+                                                 framings=framings)):  # fmt: skip
+            if i % spec["nparts"] != spec["part"]:
+                continue
+            try:
+                data = cells.build(cell)
+            except cells.Skip as e:
+                res.excluded[f"not-constructible:{e}"] += 1
+                continue
+            f, klass = judge(data, None)
+            n += 1
+            res.note(None, cell["callee"] != "global" or cell["disposal"] != "result",
+                     klass=[klass, "cell", "callee:" + cell["callee"]], sample={"cell": cell, "hex": data.hex()})  # fmt: skip
+            if f is not None:
+                f.case["cell"] = cell
+                res.failures.append(f)
+                break
+        res.exhaustive = True
+        res.extra["product_cells"] = n
     elif spec["kind"] == "random":
         prof = full or asm.full_profile(vocab.ASM_GLOBS)
 
